@@ -539,7 +539,10 @@ def run(cx, rep):
                     if prev["type"] == "CallExpression" and prev["span"]["end"] <= call["span"]["start"]:
                         mc = method_call(prev)
                         if not mc:
-                            continue
+                            # a plain call f(..) of a module-level helper
+                            if unparen(prev["callee"]).get("type") != "Identifier":
+                                continue
+                            mc = (None, unparen(prev["callee"])["value"], [a_.get("expression", a_) for a_ in prev["arguments"]])
                         # the ensure step must lie on every path to the $ref: it may only be nested in the
                         # definition-absent guard itself, never in a condition the $ref emission does not share
                         cond_ok = True
@@ -558,10 +561,26 @@ def run(cx, rep):
                         # (whatever it is called, wherever the name stands in its parameter list)
                         r_ = tsast.resolve_local_call(mod, cname, prev)
                         if r_ is not None and any(s(a_) == name for a_ in mc[2]):
+                            def stores_param(hfn, howner, pname, depth=0):
+                                for y in walk(hfn):
+                                    if y["type"] != "CallExpression":
+                                        continue
+                                    my = method_call(y)
+                                    if my and my[1] == "storeDefinition" and s(my[2][0]) == pname:
+                                        return True
+                                    # handed on to the next helper
+                                    r2 = tsast.resolve_local_call(mod, howner or cname, y) if depth < 3 else None
+                                    if r2 is not None and r2[0] is not hfn:
+                                        args2 = my[2] if my else [a2.get("expression", a2) for a2 in y["arguments"]]
+                                        hp2 = ts_common.fn_params(r2[0])
+                                        for j_, a2 in enumerate(args2):
+                                            if s(a2) == pname and j_ < len(hp2) and hp2[j_] and stores_param(r2[0], r2[1], hp2[j_], depth + 1):
+                                                return True
+                                return False
                             hps = ts_common.fn_params(r_[0])
                             for i_, a_ in enumerate(mc[2]):
                                 if s(a_) == name and i_ < len(hps) and hps[i_]:
-                                    if any(method_call(y) and method_call(y)[1] == "storeDefinition" and s(method_call(y)[2][0]) == hps[i_] for y in walk(r_[0]) if y["type"] == "CallExpression"):
+                                    if stores_param(r_[0], r_[1], hps[i_]):
                                         ok = True
                 rep.ob("C02.4", "%s.%s/%s" % (cname, mname, name), ok,
                        "%s.%s emits a $ref for `%s` that is not preceded by the ensure-definition sequence (guard -> mark -> schema -> store) for the same name" % (cname, mname, name),
